@@ -25,7 +25,7 @@ RULE = (
     "dtype, method, engine, sort} (also pairs of scans): dask.compute(r1, r2[, r3]) in both orders == each computed alone. "
     "Non-trivial = (history) >=2 steps sharing an argument object; (cocompute) the alone-results differ."
 )
-BUDGET = {"quick": 55, "thorough": 600}
+BUDGET = {"quick": 88, "thorough": 600}
 WALL = {"quick": 600, "thorough": 3400}
 ASSUMPTIONS = [
     "fresh state = a process forked from a server that imported flox and its dependencies but never called into flox",
